@@ -137,7 +137,7 @@ pub fn c06(ctx: &Ctx) -> Report {
     for tcp in [false, true] {
         let mut s = base_slice("timing", "C06", tcp);
         s.send = vec![(0, Seal::None, 0)];
-        s.poll_whens = vec![When::Now, When::WakeMinus1, When::Wake, When::WakePlus1, When::WakePlus700, When::Far];
+        s.poll_whens = vec![When::Now, When::WakeMinus1, When::Wake, When::WakePlus1, When::WakePlus700, When::Far, When::Past];
         s.ticks = vec![1, 250];
         s.configs = vec![0, 1, 2, 3, 4];
         s.cancel_rtx = true;
@@ -186,6 +186,18 @@ pub fn c07(ctx: &Ctx) -> Report {
         s.set_remote = vec![1, 3];
         s.set_local = vec![0, 3];
         s.rebuild = vec![0];
+        runs.push(SliceRun { slice: s.clone(), depth: ctx.tier.pick(6, 8) });
+        // look-alike keys: remote credentials with a no-break / ideographic space or a composed
+        // character, responses signed with the plain-space / upper-case / trailing-space / decomposed
+        // spelling (another key, however similar, must be dropped)
+        let mut s = base_slice("look-alike keys", "C07", tcp);
+        s.ids = 1;
+        s.max_live = 1;
+        s.max_sends = 1;
+        s.send = vec![(0, Seal::Sha1, 0)];
+        s.poll_whens = vec![When::Wake];
+        s.resp = vec![(2, Auth::Sha1(4), 0), (2, Auth::Sha1(5), 0), (2, Auth::Sha256(5), 0), (2, Auth::Sha1(6), 0), (2, Auth::Sha1(7), 0), (2, Auth::Sha1(8), 0), (2, Auth::Sha256(9), 0), (2, Auth::Sha1(1), 0)];
+        s.set_remote = vec![1, 4, 8];
         runs.push(SliceRun { slice: s, depth: ctx.tier.pick(6, 8) });
     }
     let req = ["response delivered", "forged or unauthenticated response dropped, state unchanged (self-loop)", "genuine SHA-1 response delivered to an authenticated request", "genuine SHA-256 response delivered to an authenticated request", "genuine SHA-1+SHA-256 response delivered to an authenticated request", "timed out"];
